@@ -1,0 +1,23 @@
+//go:build verif
+
+// Contracts for package hex (WKB as hexadecimal text), checked by /verif/engine (govc). Comment-only.
+
+package hex
+
+// wkbEnc / wkbDecG / wkbDecE: the WKB codec seen as functions of (geometry, byte order) and of the
+// byte string (definitional abstraction stated as assumed clauses on wkb.Encode / wkb.Decode).
+//@ func Encode
+//@   prop C05
+//@   mode ufloat
+//@   requires [order] typeof(byteOrder) != nil
+//@   requires [sizes] sizesFit(g)
+//@   ensures [same_bytes_in_hex] result1 == nil ==> result0 == hexOf(wkbEnc(g, orderCode(byteOrder)))
+//@   ensures [error_no_text] result1 != nil ==> result0 == ""
+//@   modifies nothing
+
+//@ func Decode
+//@   prop C05, C07
+//@   mode ufloat
+//@   ensures [bad_hex_is_an_error] !unhexOK(s) ==> result1 != nil && typeof(result0) == nil
+//@   ensures [decodes_those_bytes] unhexOK(s) ==> result0 == wkbDecG(unhexOf(s)) && result1 == wkbDecE(unhexOf(s))
+//@   modifies nothing
